@@ -59,8 +59,12 @@ KUNITS = {
 
 # Verus gives no counterexample: these Kani harnesses of the same contract are run only after a Verus obligation failed
 WITNESS = {
-    'V-PARAM': [H('base::verif_hooks::kani_param::params_defined_for_p1024', False, bound='P = 1024, F <= 2^20', timeout='10m')],
     'V-OTI': [H('base::verif_hooks::kani_oti::oti_new_refuses_too_many_symbols', True, refusal=True, timeout='5m')],
+}
+
+# native contract evaluators (/verif/replay), also only consulted after a Verus obligation failed
+WITNESS_NATIVE = {
+    'V-PARAM': ['param-search'],
 }
 
 PROPS = {
